@@ -20,7 +20,33 @@ thread_local! {
     };
 }
 
+/// Verification hooks, compiled only with `--cfg metrics_verif`.
+#[cfg(metrics_verif)]
+pub mod verif {
+    use std::{cell::Cell, sync::RwLock};
+
+    thread_local! {
+        /// When set, `fastrand(upper)` on this thread asks this function first: `Some(j)` is used as the random
+        /// choice, `None` falls through to the real generator.
+        pub static RNG_OVERRIDE: Cell<Option<fn(usize) -> Option<usize>>> = Cell::new(None);
+    }
+
+    /// Process-wide yield hook, called with the name of the point that was reached.
+    pub static POINT_HOOK: RwLock<Option<fn(&'static str)>> = RwLock::new(None);
+
+    pub(super) fn point(id: &'static str) {
+        let hook = *POINT_HOOK.read().unwrap();
+        if let Some(f) = hook {
+            f(id);
+        }
+    }
+}
+
 fn fastrand(upper: usize) -> usize {
+    #[cfg(metrics_verif)]
+    if let Some(j) = verif::RNG_OVERRIDE.with(|o| o.get()).and_then(|f| f(upper)) {
+        return j;
+    }
     FAST_RNG.with(|rng| {
         // SAFETY: We know it's safe to take a mutable reference since we're getting a pointer to a thread-local value,
         // and the reference never outlives the closure executing on this thread.
@@ -46,6 +72,8 @@ impl Reservoir {
 
     fn push(&self, value: f64) {
         let idx = self.count.fetch_add(1, Relaxed);
+        #[cfg(metrics_verif)]
+        verif::point("reservoir.push.claimed");
         if idx < self.values.len() {
             self.values[idx].store(value.to_bits(), Relaxed);
         } else {
@@ -159,6 +187,8 @@ impl AtomicSamplingReservoir {
     /// Pushes a sample into the reservoir.
     pub fn push(&self, value: f64) {
         let use_primary = self.use_primary.load(Relaxed);
+        #[cfg(metrics_verif)]
+        verif::point("reservoir.push.selected");
         if use_primary {
             self.primary.push(value);
         } else {
